@@ -5,6 +5,7 @@ import (
 	"math"
 	"strconv"
 	"strings"
+	"time"
 
 	"github.com/dop251/goja"
 	"github.com/dop251/goja/ftoa"
@@ -213,6 +214,9 @@ func classify(num *nm.Num, op string, arg int, got, want string) string {
 
 // produce performs one (x, op, arg) on the selected routes (bit 0: ftoa package directly, bit 1: runtime).
 func (e *env) produce(x float64, op string, arg int, routes int) (direct, viaRT string) {
+	e.busyX.Store(math.Float64bits(x))
+	e.busySince.Store(time.Now().UnixNano())
+	defer e.busySince.Store(0)
 	finite := !math.IsNaN(x) && !math.IsInf(x, 0)
 	hasDirect := routes&1 != 0
 	hasRT := routes&2 != 0
@@ -383,6 +387,9 @@ func judgeFormat(ver *nm.Verifier, generate bool, num *nm.Num, op string, arg in
 			if arg == 10 {
 				return judgeShortest(ver, num, got, generate)
 			}
+			if x < 0 && !strings.HasPrefix(got, "-") && !strings.HasPrefix(got, "panic:") {
+				return "sign-lost"
+			}
 			v, ok := nm.ParseRadix(got, arg)
 			if !ok {
 				return "malformed"
@@ -398,7 +405,7 @@ func judgeFormat(ver *nm.Verifier, generate bool, num *nm.Num, op string, arg in
 		return ""
 	}
 	report := func(route, got, cls string, other bool) {
-		sig := op + "|" + cls + "|" + bucket(op, arg) + "|" + xclass(x)
+		sig := formatSig(op, arg, cls, x)
 		if other {
 			sig += "|" + route + "-only"
 		}
@@ -452,6 +459,24 @@ func judgeFormat(ver *nm.Verifier, generate bool, num *nm.Num, op string, arg in
 		outcome = viaRT
 	}
 	return
+}
+
+// formatSig is the signature of a formatting failure: operation, what is wrong, and the input / argument class
+// that selects the code path. Subnormal inputs take their own (broken, see findings) path in ftoa: every kind
+// of wrong digit string there is one class per operation.
+func formatSig(op string, arg int, cls string, x float64) string {
+	xc := xclass(x)
+	if strings.HasPrefix(xc, "subnormal") {
+		switch cls {
+		case "malformed", "misrounded", "tie-misrounded", "non-digit-character", "wrong-length", "layout", "not-roundtrip", "wrong":
+			cls = "wrong-digits"
+		}
+		return op + "|" + cls + "|" + xc
+	}
+	if cls == "sign-lost" {
+		return op + "|" + cls + "|" + xc
+	}
+	return op + "|" + cls + "|" + bucket(op, arg) + "|" + xc
 }
 
 // xclass separates the input classes that take different code paths in ftoa.
